@@ -74,6 +74,44 @@ def hostile(rng, T):
     return rng.choice(shapes)
 
 
+def ill_nested(rng, T):
+    """replication nests whose spans were built well-formed and then perturbed (an inner span overruns or underruns its
+    enclosing one), optionally wrapped in an enclosing replication that ends exactly where the perturbed one ends - the
+    shapes a template validator with a counter stack is most likely to let through; counts 1..3 and delayed factors"""
+    e = lambda: rng.choice(T.pool["code"] + T.pool["num"][:50])
+
+    def nest(depth):
+        if depth == 0 or rng.random() < 0.3:
+            return [e() for _ in range(rng.randint(1, 2))]
+        body = []
+        for _ in range(rng.randint(1, 2)):
+            body += nest(depth - 1)
+        if len(body) > 60:
+            return body
+        if rng.random() < 0.6:
+            return [100000 + len(body) * 1000 + rng.choice([1, 2, 2, 3])] + body
+        return [100000 + len(body) * 1000, rng.choice([31001, 31001, 31000, 31002])] + body
+    if rng.random() < 0.5:
+        # a single chain of fixed replications over two elements: 1 0(k+1) c .. 1 03 c 1 02 c A B
+        k = rng.randint(2, 4)
+        ds = [e(), e()]
+        for _ in range(k):
+            ds = [100000 + len(ds) * 1000 + rng.choice([1, 2, 2, 3])] + ds
+    else:
+        ds = nest(rng.randint(2, 4))
+    reps = [i for i, d in enumerate(ds) if gen.F(d) == 1]
+    if reps:
+        i = rng.choice(reps)
+        x = gen.X(ds[i]) + rng.choice([-2, -1, 1, 1, 2, 3])
+        if 1 <= x < 64:
+            ds[i] = 100000 + x * 1000 + gen.Y(ds[i])
+    if rng.random() < 0.6 and len(ds) < 60:
+        ds = ([100000 + len(ds) * 1000 + rng.choice([1, 1, 2])] if rng.random() < 0.5 else [100000 + len(ds) * 1000, 31001]) + ds
+    if rng.random() < 0.3:
+        ds = ds + [e()]
+    return ds
+
+
 def static_size(T, descs, cap=10 ** 9, depth=0):
     """number of descriptors after expanding Table D and FIXED replication only (what the library expands when it builds
     the template, before it has seen any data)"""
@@ -147,6 +185,11 @@ def run(rep, tier, seed, replay=None):
             ds = hostile(rng, ctx.T)
             s4 = bytes([rng.choice([0, 0xff])] * rng.choice([2, 10, 100]))
             inputs.append(("hostile", bufrmsg.build(4, ds, rng.choice([1, 2]), rng.random() < 0.3, s4)))
+        for _ in range(160 if tier == "quick" else 1600):
+            ds = ill_nested(rng, ctx.T)
+            # delayed factors of 1..3 in front (the factor of an enclosing delayed replication is the first field)
+            s4 = bytes([rng.choice([1, 1, 2, 3, 0x01, 0x41, 0x81])] + [rng.choice([0, 1, 0x11, 0x55, 0xff]) for _ in range(rng.choice([4, 20, 200]))])
+            inputs.append(("ill_nested_replication", bufrmsg.build(rng.choice([3, 4]), ds, rng.choice([1, 2]), rng.random() < 0.2, s4)))
         # a claimed 16-bit delayed replication count over the longest Table D sequences, with Section 4 sizes up to 30 KiB:
         # (bits of one replica) x (count) crosses 2^31, 2^32 ... (arithmetic of the "message too short" guard)
         bigD = sorted(ctx.T.D, key=lambda d: -static_size(ctx.T, [d], cap=10 ** 6))[:8]
